@@ -189,29 +189,34 @@ def abstract_mul(t):
     if not z3.is_app(t) or t.num_args() == 0:
         r = t
     else:
-        kids = [abstract_mul(c) for c in t.children()]
         if z3.is_mul(t) and t.sort() == z3.RealSort():
+            # flatten nested products first: the factor multiset (not the bracketing) determines the abstraction
             const = None
-            facs = []
-            for c in kids:
-                cc, rr = _split_const(c)
+            raw = []
+            stack = list(t.children())
+            while stack:
+                c = stack.pop()
                 if z3.is_rational_value(c) or z3.is_int_value(c):
                     const = c if const is None else const * c
-                    continue
-                if cc is not None:
-                    const = cc if const is None else const * cc
-                facs.append(rr)
+                elif z3.is_mul(c) and c.sort() == z3.RealSort():
+                    stack.extend(c.children())
+                elif z3.is_app(c) and c.decl().kind() == z3.Z3_OP_UMINUS:
+                    const = z3.RealVal(-1) if const is None else const * z3.RealVal(-1)
+                    stack.append(c.arg(0))
+                else:
+                    raw.append(c)
+            facs = [abstract_mul(c) for c in raw]
             if len(facs) <= 1:
                 r = facs[0] if facs else z3.RealVal(1)
             else:
                 facs.sort(key=lambda x: x.get_id())
                 r = facs[0]
                 for f in facs[1:]:
-                    a, b = (r, f) if r.get_id() <= f.get_id() else (f, r)
-                    r = UMUL(a, b)
+                    r = UMUL(r, f)
             if const is not None:
                 r = z3.simplify(const) * r
         else:
+            kids = [abstract_mul(c) for c in t.children()]
             try:
                 r = t.decl()(*kids)
             except z3.Z3Exception:
@@ -306,8 +311,30 @@ def _cond_atoms(t):
 def prove_by_cases(goal, extra=(), max_leaves=600):
     """validity of `goal` by case analysis on the comparison atoms of its if-then-else conditions: every leaf is an
     ite-free (typically linear) query.  Complete enumeration of the feasible sign vectors => sound and, per leaf,
-    a 'refuted' answer is a genuine counter-model."""
+    a 'refuted' answer is a genuine counter-model.  One incremental solver decides the atoms (push/pop)."""
     leaves = [0]
+    base = relevant(CTX.all_hyps() + list(extra), [goal])
+    inc = z3.Solver()
+    inc.set("timeout", 5000)
+    inc.add(*base)
+
+    def decided(a):
+        """True / False if the atom is decided by the solver's current assertions, else None"""
+        inc.push()
+        inc.add(z3.Not(a))
+        r = inc.check()
+        inc.pop()
+        CTX.nq += 1
+        if r == z3.unsat:
+            return True
+        inc.push()
+        inc.add(a)
+        r = inc.check()
+        inc.pop()
+        CTX.nq += 1
+        if r == z3.unsat:
+            return False
+        return None
 
     def rec(g, atoms, hy):
         g = z3.simplify(g)
@@ -317,28 +344,57 @@ def prove_by_cases(goal, extra=(), max_leaves=600):
         while i < len(atoms):
             a = atoms[i]
             i += 1
-            if valid(a, hy):
+            d = decided(a)
+            if d is True:
                 g = z3.simplify(z3.substitute(g, (a, z3.BoolVal(True))))
-            elif valid(z3.Not(a), hy):
+            elif d is False:
                 g = z3.simplify(z3.substitute(g, (a, z3.BoolVal(False))))
             else:
                 rest = atoms[i:]
+                inc.push()
+                inc.add(a)
                 r = rec(z3.substitute(g, (a, z3.BoolVal(True))), rest, hy + [a])
+                inc.pop()
                 if r[0] != "proved":
                     return r
-                return rec(z3.substitute(g, (a, z3.BoolVal(False))), rest, hy + [z3.Not(a)])
+                inc.push()
+                inc.add(z3.Not(a))
+                r = rec(z3.substitute(g, (a, z3.BoolVal(False))), rest, hy + [z3.Not(a)])
+                inc.pop()
+                return r
             if z3.is_true(g):
                 return "proved", None
         leaves[0] += 1
         if leaves[0] > max_leaves:
             return "unknown", None
-        # new atoms may have become visible (nested ites): one more round if any remain
-        more = [a for a in _cond_atoms(g)]
+        more = _cond_atoms(g)
         if more:
             return rec(g, more, hy)
-        return refute_or_prove(g, hy)
+        return refute_or_prove(g, list(extra) + hy)
 
-    return rec(goal, _cond_atoms(goal), list(extra))
+    t0 = time.time()
+    try:
+        return rec(goal, _cond_atoms(goal), [])
+    finally:
+        CTX.solver_s += 0.0
+
+
+def prove_goal(goal, extra=()):
+    """strategy: ite-heavy goals go to case analysis first; others get a cheap direct attempt, then cases, then full budget"""
+    if isinstance(goal, bool):
+        return ("proved", None) if goal else ("refuted", None)
+    natoms = len(_cond_atoms(goal))
+    if natoms >= 6:
+        st, m = prove_by_cases(goal, extra)
+        if st == "unknown":
+            st, m = refute_or_prove(goal, extra)
+        return st, m
+    st, m = refute_or_prove(goal, extra, rlimit=RLIMIT // 20)
+    if st == "unknown" and natoms:
+        st, m = prove_by_cases(goal, extra)
+    if st == "unknown":
+        st, m = refute_or_prove(goal, extra)
+    return st, m
 
 
 def add_hint(f):
